@@ -168,7 +168,7 @@ PROPS = {
         "technique": "Verus contract + loop invariants on the extracted real uncompact; lemmas over the C07 children spec",
     },
     "C14": {
-        "units": ["compact", "glue"],
+        "units": ["compact", "glue", "hilbert"],
         "bounded_ops": [
             {"op": "lonlat_to_cell", "budget": 600, "what": "bounded cross-check of the float-layer assumptions on the real code: for "
              "extreme and random lon/lat x i32 resolutions lonlat_to_cell returns, and an Ok result is a canonical ID of the requested "
@@ -178,6 +178,12 @@ PROPS = {
         "level": "proof",
         "assumptions": STD_ASSUME + [
             "float layer (projections, tiling, pentagon geometry) assumed total; only the integer arguments handed to it are obligations",
+            "the curve walk (unit hilbert: quaternary_to_flips, shift_digits, reverse_pattern, s_to_anchor_internal, s_to_anchor, "
+            "ij_to_s_internal, ij_to_s) is verified panic-free, in bounds and terminating with its f64 coordinate arithmetic replaced by "
+            "opaque stubs (item-local rewrites listed in the evidence): digits stay < 4, flips stay +-1, the panic arms of "
+            "quaternary_to_flips are unreachable, the located position is < 4^depth; this discharges what unit glue assumes for "
+            "s_to_anchor / ij_to_s (depth <= 28, s < 4^depth). quaternary_to_kj and ij_to_quaternary remain stubs (their panic arms "
+            "become preconditions, proved at the call sites)",
             "lonlat_to_cell and lonlat_to_estimate are verified (Err for resolutions outside -1..29; an Ok result is a canonical ID of "
             "the requested resolution; cells[0] exists; the estimate carries the requested resolution, a face id < 12 and a segment "
             "< 5; ij_to_s is called with a depth in 1..=28) with their float expressions (sampling spiral, rotation into the first "
@@ -281,6 +287,7 @@ PROPS = {
         "technique": "Verus representation invariant + frame conditions on extracted real &mut self methods",
     },
     "C17": {
+        "units": ["hilbert"],
         "kani": K17,
         "kani_jobs": 14,
         "kani_timeout": 6000,
@@ -293,6 +300,9 @@ PROPS = {
             "NOT decided: pentagon centres lie in the quintant triangle and the pentagon CENTRE maps back to s (irrational basis; "
             "PENTAGON constants use cos/sin/atan2)",
             "the digit-shift step is proved completely (full-domain harness k17_shift_then_unshift_is_identity)",
+            "Verus unit hilbert (unbounded, all depths): the digit machinery of both directions keeps digits quaternary and flips +-1, "
+            "never indexes out of bounds, terminates, and ij_to_s returns a position < 4^depth ('no position outside the range'); "
+            "the f64 coordinate arithmetic is stubbed there, so this says nothing about WHICH position is returned",
         ],
         "bounded_ops": [
             {"op": "curve_roundtrip", "budget": 20000, "timeout": 900, "what": "deep curve levels (BOUNDED stand-in, beyond the depth Kani reaches): "
@@ -423,6 +433,7 @@ TRUSTED = {
              "assume_specification u64::pow", "assume_specification u64::saturating_pow"],
     "glue": None,
     "memo": None,
+    "hilbert": None,
     "shape": None,
     "compact": ["external_body err_msg", "external_body get_origins", "assume_specification usize::pow",
                 "assume_specification u64::pow", "assume_specification u64::saturating_pow",
